@@ -45,6 +45,20 @@ def impl(case):
         out["V"] = {"exc": type(e).__name__, "msg": str(e)[:200]}
     machine("push", lambda: mk().push)
     machine("trim", lambda: mk().trim)
+    # editing the RESULT of trim / trim_vals / push must not change the machine it was computed from
+    try:
+        pure = True
+        for op in ("trim", "trim_vals", "push"):
+            m1 = mk()
+            snap = common.enc_wfsa(m1, R)
+            m1.push                                        # fill a cached property first
+            t = getattr(m1, op)
+            t.add_F("__fresh_state__", common.mk_w("1/2", R))
+            t.add_arc("__fresh_state__", case["wfsa"]["syms"][0] if case["wfsa"].get("syms") else "a", "__fresh_state__", common.mk_w("1/4", R))
+            pure = pure and common.enc_wfsa(m1, R) == snap
+        out["result_edits_are_private"] = pure
+    except Exception as e:  # noqa
+        out["result_edits_are_private"] = {"exc": type(e).__name__, "msg": str(e)[:200]}
     machine("trim_vals", lambda: mk().trim_vals)
     machine("push_trim", lambda: mk().push.trim)
     if case.get("det"):
@@ -469,6 +483,8 @@ def run(ctx):
             if res is None or "exc" in res:
                 semantic.append(_viol(c, hs, "worker", None, res))
                 continue
+            if res.get("result_edits_are_private") is not True and hs == hashseeds[0]:
+                semantic.append(_viol(c, hs, "result_edits_are_private", None, {"what": "adding a state/arc to the machine returned by trim / trim_vals / push changed the original machine", "detail": res.get("result_edits_are_private")}))
             for nm in names:
                 m = res.get(nm)
                 if m is None:
